@@ -399,8 +399,14 @@ func (c *clientConn) snapshot() string {
 	if c.ct != nil {
 		i := transport.VerifClientInfo(c.ct)
 		st := map[int]string{0: "R", 1: "C", 2: "D"}[i.State]
-		conn = fmt.Sprintf("%s,act=%d,prev=%d,next=%d,q=%d,wt=%d,mc=%d,mh=%d,ga=%s,cd=%s,rs=%d,oc=%s,eof=%s", st, i.Active, i.PrevGoAwayID, i.NextID,
-			i.StreamQuota, i.Waiting, i.MaxConc, i.MaxSendHdr, b2s(i.GoAwayClosed, "1"), b2s(i.CtxDone, "1"), i.Reason, strings.Join(c.onClose, "+"), b2s(c.peerEOF, "1"))
+		q, wt := strconv.FormatInt(i.StreamQuota, 10), strconv.Itoa(int(i.Waiting))
+		if st == "C" {
+			// once Close has started, whether closeStream still gives its quota back depends on whether loopy has
+			// already closed the control buffer (a race the runtime decides; the quota is meaningless by then)
+			q, wt = "-", "-"
+		}
+		conn = fmt.Sprintf("%s,act=%d,prev=%d,next=%d,q=%s,wt=%s,mc=%d,mh=%d,ga=%s,cd=%s,rs=%d,oc=%s,eof=%s", st, i.Active, i.PrevGoAwayID, i.NextID,
+			q, wt, i.MaxConc, i.MaxSendHdr, b2s(i.GoAwayClosed, "1"), b2s(i.CtxDone, "1"), i.Reason, strings.Join(c.onClose, "+"), b2s(c.peerEOF, "1"))
 	}
 	if len(rp) == 0 {
 		rp = []string{"-"}
